@@ -500,10 +500,9 @@ func genDrift(r *lib.Rng) {
 	driftCase(drift, d)
 }
 
-func generate(r *lib.Rng, nScen, nDrift int) {
+func generate(r *lib.Rng, nScen, nDrift, maxRounds int) {
 	// fixed cases first (always present whatever the seed)
 	fixed()
-	maxRounds := 20
 	for i := 0; i < nScen; i++ {
 		var sc *scenario
 		switch x := r.Intn(20); {
